@@ -94,7 +94,7 @@ func TestProp_ConcurrentHandshakes(t *testing.T) {
 			for i := 0; i < n; i++ {
 				idc++
 				c := &client{id: idc}
-				c.kind = rapid.SampledFrom([]string{"auth", "auth", "token", "token", "fetch-unauthorized", "fetch-authorized", "forged-nonce", "foreign-cert", "malformed-chunks", "token-for-enrolled-key"}).Draw(t, "kind")
+				c.kind = rapid.SampledFrom([]string{"auth", "auth", "token", "token", "fetch-unauthorized", "fetch-authorized", "forged-nonce", "foreign-cert", "malformed-chunks", "token-for-enrolled-key", "token-after-rejected-probe"}).Draw(t, "kind")
 				kinds[c.kind]++
 				switch c.kind {
 				case "auth", "forged-nonce", "foreign-cert", "malformed-chunks":
@@ -106,7 +106,7 @@ func TestProp_ConcurrentHandshakes(t *testing.T) {
 					if err := w.Enroll(c.a, eo...); err != nil {
 						t.Fatalf("enroll: %v", err)
 					}
-				case "token":
+				case "token", "token-after-rejected-probe":
 					var to []nodeenrollment.Option
 					if rapid.IntRange(0, 2).Draw(t, "tokenHasState") > 0 {
 						c.tstate = vkit.UniqueStruct(fmt.Sprintf("token-state-%d", c.id))
@@ -158,6 +158,20 @@ func TestProp_ConcurrentHandshakes(t *testing.T) {
 					switch c.kind {
 					case "auth", "fetch-unauthorized", "fetch-authorized":
 						c.conn, c.err = rig.Dial(c.a, extra, st)
+					case "token-after-rejected-probe":
+						// somebody first "authenticates" under this node's key without being able
+						// to (the node is not enrolled yet, the signature is noise): refused. The
+						// node then enrolls with its token, as if nothing had happened.
+						nonce := make([]byte, 32)
+						_, _ = rand.Read(nonce)
+						sig := make([]byte, 64)
+						_, _ = rand.Read(sig)
+						probe := &types.GenerateServerCertificatesRequest{CertificatePublicKeyPkix: c.a.CertPkix, Nonce: nonce, NonceSignature: sig}
+						self := vkit.MintLeaf(nil, vkit.LeafSpec{Pub: c.a.CertPub, SKI: c.a.CertPkix, NB: vkit.TS0().Add(-60e9), NA: vkit.TS0().Add(60e9), SelfSign: c.a.CertPriv, IsCA: true})
+						if r := (&vkit.AdvClient{NextProtos: vkit.AuthProtos(probe, nil), Chain: [][]byte{self}, Key: c.a.CertPriv}).Handshake(rig.Addr); r.Conn != nil {
+							_ = r.Conn.Close()
+						}
+						c.conn, c.err = rig.Dial(c.a, extra, st, nodeenrollment.WithActivationToken(c.token))
 					case "token":
 						c.conn, c.err = rig.Dial(c.a, extra, st, nodeenrollment.WithActivationToken(c.token))
 					case "token-for-enrolled-key":
@@ -264,7 +278,7 @@ func TestProp_ConcurrentHandshakes(t *testing.T) {
 			}
 			for _, c := range clients {
 				switch c.kind {
-				case "auth", "token", "fetch-authorized":
+				case "auth", "token", "fetch-authorized", "token-after-rejected-probe":
 					if c.err != nil || seen[c.id] != 1 {
 						fail("honest-client-outcome/"+c.kind, "client %d (%s): dial error %v, authenticated connections reported for it: %d (expected exactly 1)", c.id, c.kind, c.err, seen[c.id])
 					}
@@ -292,7 +306,7 @@ func TestProp_ConcurrentHandshakes(t *testing.T) {
 			}
 			expectNew := map[string]*client{}
 			for _, c := range clients {
-				if c.kind == "token" {
+				if c.kind == "token" || c.kind == "token-after-rejected-probe" {
 					expectNew["NodeInformation/"+c.a.KeyID] = c
 				}
 			}
